@@ -46,7 +46,8 @@ class Main:
     @staticmethod
     def compare(lines, m, i):
         # responses of subscriptions opened through the sdv handler are maps: compared sorted by name
-        return Q.canon_sdv(lines, m or []) == Q.canon_sdv(lines, i or [])
+        c = lambda o: Q.canon_subquery_refusal(lines, Q.canon_sdv(lines, o or []))
+        return c(m) == c(i)
 
     @staticmethod
     def nontrivial(lines, out):
